@@ -373,6 +373,46 @@ fn use_alloc(path: &AllocPath, n: u64, with_data: bool, explicit_hr: bool) -> Ob
             })();
             classify(r, |items: &Vec<Value>| if items.len() == count as usize { Ok(()) } else { Err(format!("{} items", items.len())) })
         }
+        AllocPath::BlockSizeAfterGrowth => {
+            // three blocks of exactly 0.55 n, 0.65 n and n bytes, each filled by `bytes` values
+            // (an empty value is put in front where no single value has the wanted encoded size)
+            let fill_block = |size: u64| -> (i64, Vec<u8>) {
+                for (count, lead) in [(1i64, 0u64), (2, 1), (3, 2)] {
+                    let Some(rest) = size.checked_sub(lead) else { break };
+                    for l in (rest.saturating_sub(3)..rest).rev() {
+                        let mut p = vec![0u8; lead as usize];
+                        put_long(&mut p, l as i64);
+                        if p.len() as u64 + l == size {
+                            p.resize(p.len() + l as usize, b'g');
+                            return (count, p);
+                        }
+                    }
+                }
+                (size as i64, vec![0u8; size as usize])
+            };
+            let marker = [0xA5u8; 16];
+            let (c1, b1) = fill_block(n * 55 / 100);
+            let mut file = container("\"bytes\"", None, c1, &b1, b1.len() as i64);
+            let mut expect = c1;
+            for size in [n * 65 / 100, n] {
+                let (c, b) = fill_block(size);
+                expect += c;
+                put_long(&mut file, c);
+                put_long(&mut file, b.len() as i64);
+                file.extend_from_slice(&b);
+                file.extend_from_slice(&marker);
+            }
+            let r = (|| {
+                let rd = if explicit_hr { Reader::builder(&file[..]).human_readable(false).build()? } else { Reader::new(&file[..])? };
+                let mut items = 0usize;
+                for it in rd {
+                    it?;
+                    items += 1;
+                }
+                Ok(items)
+            })();
+            classify(r, |items: &usize| if *items as i64 == expect { Ok(()) } else { Err(format!("{items} items instead of {expect}")) })
+        }
         AllocPath::Decompress(k) => {
             let Some(codec) = lib_codec(*k) else { return Obs::OtherErr("codec not built".into()) };
             let mut buf = vec![0u8; len];
